@@ -19,6 +19,7 @@ Workload classes (a known finding can only show in the class whose generator can
   boundary  what the API accepts beyond the property's quantifier (recorded, never a verdict)
 """
 import os
+import re
 import json
 import traceback
 import subprocess
@@ -58,7 +59,12 @@ N_SAMPLES = 5
 VERIF_ROOT = os.path.dirname(os.path.dirname(os.path.abspath(__file__)))
 PY = "/venv/bin/python"
 SIZES = {"quick": {"ns": 240, "conv": 96, "det": 48, "shards": 8, "det_shards": 16, "detso": 8, "detso_shards": 8},
-         "thorough": {"ns": 2000, "conv": 900, "det": 320, "shards": 16, "det_shards": 32, "detso": 48, "detso_shards": 16}}
+         "thorough": {"ns": 4000, "conv": 1600, "det": 400, "shards": 16, "det_shards": 32, "detso": 64, "detso_shards": 16}}
+
+
+# the determinism class converts designs of the classes whose conversion is expected to be clean or collide only
+# (leading-underscore names make the memory emitter raise; that has nothing to do with reproducibility)
+DET_PROFILES = ("plain", "digits", "suffix", "reserved", "mixed")
 
 
 # ------------------------------------------------------------------------------------------------
@@ -80,7 +86,7 @@ def plan(tier, seed):
         r = rng_for(seed, "C02/det", k)
         det.append({"seed": "%d/C02/det/%d" % (seed, k), "level": "det", "k": k,
                     "hashseeds": ["0", "1", str(r.randrange(2, 1 << 31))],
-                    "designs": [{"profile": L.PROFILES[(k + i) % len(L.PROFILES)], "shim": (k + i) % 2 == 0} for i in range(4)]})
+                    "designs": [{"profile": DET_PROFILES[(k + i) % len(DET_PROFILES)], "shim": (k + i) % 2 == 0} for i in range(4)]})
     n = z["det_shards"]
     for i in range(n):
         shards.append({"id": "determinism%02d" % i, "cls": "determinism", "cases": det[i::n]})
@@ -237,7 +243,7 @@ def run_ns_case(col, case):
             for o in reversed(list(ns.sigs)):                              # second request: stability contract
                 ns.get_name(o)
         except Exception as e:
-            entries.append(_exception_entry(e, "namespace level, request order %s" % oname))
+            entries.append(L.exception_entry(e, "namespace level, request order %s" % oname))
             continue
         col.ev("namespaces_built")
         col.ev("request_orders")
@@ -249,18 +255,6 @@ def run_ns_case(col, case):
     _flush_counters(col)
     _emit(col, case, design, log + entries)
     col.case_done(case, nontrivial=nobj >= 5 and shared >= 1, sample=sample)
-
-
-def _exception_entry(e, where):
-    """an exception raised inside the code under test on a legal design is a finding of its own"""
-    tb = traceback.extract_tb(e.__traceback__)
-    inner = [fr for fr in tb if "/litex/" in fr.filename] or [fr for fr in tb if "/migen/" in fr.filename]
-    if not inner:
-        raise e                                            # harness problem: col.guard turns it into inconclusive
-    fr = inner[-1]                                         # innermost frame of the tree under test
-    return {"key": "exception/%s@%s:%s" % (type(e).__name__, os.path.basename(fr.filename), fr.name),
-            "what": "%s raised %s: %s" % (where, type(e).__name__, str(e)[:300]),
-            "witness": {"traceback": traceback.format_exception(type(e), e, e.__traceback__)[-6:]}}
 
 
 def run_conv_case(col, case):
@@ -278,7 +272,7 @@ def run_conv_case(col, case):
     try:
         r = verilog.convert(b.top, ios=set(b.ios), name="top", regular_comb=design.get("regular_comb", True))
     except Exception as e:
-        entries.append(_exception_entry(e, "convert()"))
+        entries.append(L.exception_entry(e, "convert()"))
         r = None
     finally:
         L.MON.capture = False
@@ -381,8 +375,12 @@ def run_det_case(col, case):
         outs = [r[i] for r in runs]
         errs = [o.get("error") for o in outs]
         if any(errs):
-            if all(errs) and len({e.strip().split("\n")[-1] for e in errs}) == 1:
-                col.count("designs_raising_identically_in_every_run")        # the conversion classes report the exception
+            if all(errs) and len({e["key"] for e in errs}) == 1:
+                if errs[0]["key"] is None:
+                    col.inconc(case, "design %d: harness exception in the conversion script: %s" % (i, errs[0]["what"]))
+                else:                                   # back-traces differ from the worker's: report here as well
+                    col.violation(errs[0]["key"], dict(wcase, design=designs[i]["design"], shim=designs[i]["shim"]),
+                                  "fresh process: " + errs[0]["what"], errs[0]["witness"])
             elif all(errs):
                 col.violation("reproducibility/outcome-differs-between-runs", wcase, "design %d raises different exceptions "
                               "under different PYTHONHASHSEED values" % i, {"design_index": i, "errors": errs})
